@@ -382,6 +382,39 @@ class Normalizer:
             if not changed:
                 break
         self._constants()
+        self._drop_folded()
+
+    def _drop_folded(self):
+        """a helper whose every use was folded is removed, so that whole-package scans do not see its body twice"""
+        for q in sorted(self.candidates):
+            fd = self.funcs[q]
+            name = fd.node.name
+            used = False
+            for tree in self.trees.values():
+                for n in ast.walk(tree):
+                    if n is fd.node:
+                        continue
+                    if (isinstance(n, ast.Name) and n.id == name) or (isinstance(n, ast.Attribute) and n.attr == name):
+                        # references inside the helper itself do not count
+                        if not any(x is n for x in ast.walk(fd.node)):
+                            used = True
+                            break
+                if used:
+                    break
+            if used:
+                continue
+            tree = self.trees[fd.modname]
+            if fd.cls is None:
+                if fd.node in tree.body:
+                    tree.body.remove(fd.node)
+                    self.log.append(f"removed folded helper {q}")
+            else:
+                for st in tree.body:
+                    if isinstance(st, ast.ClassDef) and st.name == fd.cls and fd.node in st.body:
+                        st.body.remove(fd.node)
+                        if not st.body:
+                            st.body.append(ast.Pass())
+                        self.log.append(f"removed folded helper {q}")
 
     def _process_function(self, fn: ast.FunctionDef, modname: str, cls: Optional[str]) -> bool:
         self_name = fn.args.args[0].arg if (cls and fn.args.args and _kind(fn) in ('method', 'other')) else None
